@@ -200,8 +200,10 @@ func vpH_C07_peerdown() {
 
 // heartbeat: one real heartbeat from an arbitrary state, checked phase by phase against the set-level
 // reference of DESIGN.md Appendix C (C07).
-func vpHeartbeatStep(P int, params GossipSubParams, ticks0 uint64) {
-	w := vpNewWorld(vpWorldCfg{P: P, params: params, scoring: true, direct: true, noFanout: true})
+func vpHeartbeatStep(P int, params GossipSubParams, ticks0 uint64) { vpHeartbeatStepX(P, params, ticks0, false) }
+
+func vpHeartbeatStepX(P int, params GossipSubParams, ticks0 uint64, allInMesh bool) {
+	w := vpNewWorld(vpWorldCfg{P: P, params: params, scoring: true, direct: true, noFanout: true, allInMesh: allInMesh})
 	gs := w.n.gs
 	vpAssume(w.joined)
 	gs.heartbeatTicks = ticks0
@@ -321,7 +323,12 @@ func vpHeartbeatStep(P int, params GossipSubParams, ticks0 uint64) {
 	if Dhi <= P {
 		vpCover(m1 >= Dhi && removed > 0, "over-subscribed and cut")
 	}
-	vpCover(m0 > m1, "negative member pruned")
+	if !allInMesh {
+		vpCover(m0 > m1, "negative member pruned")
+	}
+	if allInMesh {
+		return
+	}
 	if Dout > 0 && Dlo <= P {
 		vpCover(m1 >= Dlo && m1 < Dhi && added > 0 && !og, "outbound quota refilled in a mesh that is within bounds")
 	}
@@ -350,6 +357,13 @@ func vpHT_C07_heartbeat_p4b() { vpOpt("unwind", 10); vpHeartbeatStep(4, vpParams
 // (P=5 with (4,2,4,1,1) was tried: 578k terms, the solver does not even decide satisfiability of the assumptions in 600 s — outside)
 // outbound quota: Dout=1 with a mesh that is within [Dlo,Dhi) — the step "do we have enough outbound peers?" runs alone
 func vpH_C07_heartbeat_out() { vpOpt("unwind", 10); vpHeartbeatStep(3, vpParamsTuple(4, 2, 4, 1, 1), 0) }
+// over-subscription WITH an outbound quota (needs D >= 4, hence P >= 5): membership concrete (all five peers are mesh
+// members), scores and connection directions symbolic, any permutation for the shuffle: the cut to D keeps the Dscore
+// best and rotates outbound members in until Dout of them are kept.
+func vpHT_C07_heartbeat_cut5() {
+	vpOpt("unwind", 12)
+	vpHeartbeatStepX(5, vpParamsTuple(4, 2, 4, 1, 1), 0, true)
+}
 func vpH_C07_heartbeat_zero() { vpOpt("unwind", 10); vpHeartbeatStep(3, vpParamsTuple(0, 0, 0, 0, 0), 0) }
 
 // graftprune: the heartbeat's coalescing sender. Arbitrary per-peer GRAFT and PRUNE topic lists over two topics (a peer
